@@ -42,6 +42,19 @@ def fieldless(rng, did, n, mask):
         elif disc is not None:
             disc += 1
         vs.append(v)
+    if n >= 2 and rng.random() < 0.3:
+        # descending / restarting explicit values (all distinct): declaration order is what counts, not the value
+        base = 10 * n + rng.randrange(5)
+        for i, v in enumerate(vs):
+            v["disc"] = [base - 7 * i] if i % 2 == 0 or rng.random() < 0.5 else []
+        seen, cur, ok = set(), None, True
+        for v in vs:
+            cur = v["disc"][0] if v["disc"] else (0 if cur is None else cur + 1)
+            ok = ok and cur not in seen and cur >= 0
+            seen.add(cur)
+        if not ok:
+            for v in vs:
+                v["disc"] = []
     return enum(did, vs, style=rng.choice(["none", "none"] + STYLES), prefix=rng.choice(SC.PREFIXES), split=rng.randrange(2))
 
 
